@@ -9,7 +9,7 @@ import (
 func init() {
 	reg("C35", Meta{
 		Technique:   "must-guard reachability on SSA (policy decision / re-encryption / ServeHTTP only behind decode, decrypt, unmarshal, expiry and policy checks), provenance of the role, slice-bound guard check with interval analysis",
-		Explanation: "C35 (API tokens), structural clauses: (G1) Authenticator.Enforce consults the policy and can return a non-false verdict only behind successful base64 decode, authenticated decryption, JSON decode and the not-expired test, and the role given to the policy engine is the decoded record's role; (G2) RefreshKey re-encrypts only behind the same four checks and never writes the role; (G3) the HTTP middleware calls the wrapped handler only behind err==nil and allowed==true of Enforce; (I1) encrypter.decrypt slices the token only behind a length guard against the nonce size (a short token must give an error, not a panic). Not decided: cryptographic strength (AES-GCM authenticity is trusted), the casbin policy semantics.",
+		Explanation: "C35 (API tokens), structural clauses: (G1) Authenticator.Enforce consults the policy and can return a non-false verdict only behind successful base64 decode, authenticated decryption, JSON decode and the not-expired test, and the role given to the policy engine is the decoded record's role; (G2) RefreshKey re-encrypts only behind the same four checks, assigns the new expiry only after (behind) the test of the presented token's expiry, and never writes the role; (G3) the HTTP middleware calls the wrapped handler only behind err==nil and allowed==true of Enforce; (I1) encrypter.decrypt slices the token only behind a length guard against the nonce size (a short token must give an error, not a panic). Not decided: cryptographic strength (AES-GCM authenticity is trusted), the casbin policy semantics.",
 		Assumptions: []string{"cipher.AEAD.Open fails on any altered ciphertext", "casbin Enforcer.Enforce implements the configured policy"},
 	}, c35)
 }
@@ -110,6 +110,13 @@ func c35(r *core.Run) {
 		r.Floor("C35.G2", "re-encryptions in RefreshKey", len(calls), 1)
 		for _, c := range calls {
 			behindAll(r, "C35.G2", fn, c, "re-encryption", tokenGuards)
+		}
+		// the expiry test reads the token's own expiry: the record's Expiry is (re)assigned
+		// only after — behind — the not-expired test
+		_, notExpired := core.AtomEdges(fn, core.BoolCallAtom(func(c *ssa.Call) bool { return core.IsCallTo(c, after) }))
+		for _, st := range fieldStores(fn, "pkg/auth.authRecord", "Expiry") {
+			r.Check("C35.G2", core.Key("C35.G2", fn, "new expiry assigned only after the expiry test"), st.Pos(), len(notExpired) > 0 && core.OnlyBehind(fn, st, notExpired),
+				"the presented token's expiry is tested before it is replaced by the new one", "the record's Expiry is overwritten before the expiry test: the test then sees the new, future expiry and an expired token is revived")
 		}
 		roleStores := fieldStores(fn, "pkg/auth.authRecord", "Role")
 		r.Check("C35.P2", core.Key("C35.P2", fn, "role unchanged"), fn.Pos(), len(roleStores) == 0,
